@@ -7,7 +7,7 @@ GEN_Q = '{"e", "z", "a", "m80", "az", "x81", "L55", "L56"}'
 GEN_T = '{"e", "z", "a", "m7f", "m80", "az", "x81", "xb8", "adr", "L55", "L56", "L255", "L256"}'
 WALK_IDS = '{"e", "z", "o", "a", "m7f", "m80", "ff", "az", "aa", "x81", "x80", "xb8", "adr", "h32", "L54", "L55", "L56", "L57", "L255", "L256", "L257"}'
 PROBES = ('{"empty", "one", "nc1", "short_ok", "short_tr", "short_tr2", "long_ok", "long_tr", "long_small", "long_nosz", '
-          '"long_lz", "long2_ok", "long2_tr", "long4", "long8_lz", "list", "list_after", "f8"}')
+          '"long_lz", "long2_ok", "long2_tr", "long3_tr", "long3_lz", "long4", "long5", "long6", "long7_lz", "long8_lz", "list", "list_after", "f8"}')
 # (builder type, raw prefix id) combinations the containers are replayed under
 KINDS = [("hash", '""', "adv"), ("hash", '"adr"', "adv"), ("phash", '"p"', "adv"), ("rlp", '""', "adv"),
          ("hash", '""', "scoredb")]      # the last: containers of system SCOREs through service/scoredb
@@ -30,16 +30,23 @@ def model_check(ctx):
     ctx.check_coverage(r, ["New", "AppendTo", "Probe"])
     # 2. containers over one shared store refine independent array/map/cell
     if ctx.quick():
-        r = ctx.model_check("data", "MC_Containers", "MC_Containers.cfg", constants={"MaxOps": 5, "MaxLen": 2},
-                            coverage=True, timeout=600)
+        r = ctx.model_check("data", "MC_Containers", "MC_Containers.cfg",
+                            constants={"MaxOps": 5, "MaxLen": 2, "Snaps": "FALSE"}, coverage=True, timeout=600)
+        # with read-only snapshots of the store (one history step less: the snapshot multiplies the state space)
+
     else:
         r = ctx.model_check("data", "MC_Containers", "MC_Containers_All.cfg", coverage=True, timeout=3000)
         ctx.exhaustive = True
     ctx.check_coverage(r, ["ArrPut", "ArrPop", "ArrSet", "ArrGet", "ArrSize", "DictSet", "DictDelete", "DictGet",
-                           "DictBadArity", "VarSet", "VarDelete", "VarGet"])
+                           "DictBadArity", "VarSet", "VarDelete", "VarGet"], allow_zero=("Freeze", "AnySnap"))
+    # with read-only snapshots of the store (shorter histories: the snapshot multiplies the state space)
+    rs = ctx.model_check("data", "MC_Containers", "MC_Containers.cfg",
+                         constants={"MaxOps": ctx.pick(4, 5), "MaxLen": 2, "Snaps": "TRUE"}, coverage=True,
+                         timeout=ctx.pick(900, 2400), label="snapshots")
+    ctx.check_coverage(rs, ["Freeze", "AnySnapRead", "AnySnapWrite"])
     # the same for the containers of system SCOREs (service/scoredb: type part 0x00/0x01/0x02, one shared name)
     ctx.model_check("data", "MC_Containers", "MC_Containers.cfg",
-                    constants={"MaxOps": ctx.pick(4, 6), "MaxLen": 2, "Universe": '"scoredb"', "BType": '"hash"'},
+                    constants={"MaxOps": ctx.pick(4, 6), "MaxLen": 2, "Universe": '"scoredb"', "BType": '"hash"', "Snaps": "FALSE"},
                     timeout=1800, label="scoredb universe")
     # sensitivity guard: the same universe under the non-injective raw builder must collide
     g = ctx.tlc("data", "MC_ContainersRaw", "MC_ContainersRaw.cfg", expect_violation=True, count=False,
@@ -58,9 +65,14 @@ def replay(ctx):
                             constants={"PartIds": ctx.pick(GEN_Q, GEN_T)}, timeout=1500)
         # calls with two arguments, all builder types, branching (two builders derived from one)
         kb += ctx.behaviours("data", "Gen_ContainerKeys", "Gen_ContainerKeys.cfg",
-                             constants={"PartIds": ctx.pick('{"e", "m80", "L56"}', '{"e", "z", "m80", "x81", "L55", "L56", "L256"}'),
+                             constants={"PartIds": ctx.pick('{"e", "m80", "L56", "L256"}', '{"e", "z", "m80", "x81", "L55", "L56", "L256"}'),
                                         "RawIds": '{"a", "adr"}', "MaxBuilders": 3, "MaxNew": 1, "MaxArgs": 2,
                                         "MaxParts": 4, "MaxOps": 2, "Depth": 2}, timeout=1500)
+        # a part of 65536 bytes (3-byte size field), every builder type, alone and after a short part
+        kb += ctx.behaviours("data", "Gen_ContainerKeys", "Gen_ContainerKeys.cfg",
+                             constants={"PartIds": '{"a", "L65536"}', "RawIds": '{"a"}', "MaxBuilders": 2, "MaxNew": 1,
+                                        "MaxArgs": 1, "MaxParts": 2, "MaxOps": 2, "Depth": 2,
+                                        "Types": '{"hash", "phash", "rlp", "raw", "tkey"}'}, timeout=900)
         # SplitKeys on crafted (truncated, non-minimal, list-tagged) inputs
         kb += ctx.behaviours("data", "Gen_ContainerKeys", "Gen_ContainerKeys.cfg",
                              constants={"PartIds": "{}", "RawIds": "{}", "MaxOps": 1, "Depth": 1, "ProbeIds": PROBES},
